@@ -427,7 +427,9 @@ class DynamicResource(Resource):
 
             part = _requote_path(part)
             formatter += part
-            pattern += re.escape(part)
+            # Requests are matched on their ``path_safe`` form, so the fixed
+            # text has to be in that form too (``/a b/{x}``, ``/é/{x}``).
+            pattern += re.escape(_path_safe(part))
 
         try:
             compiled = re.compile(pattern)
@@ -1085,6 +1087,8 @@ class UrlDispatcher(AbstractRouter, Mapping[str, AbstractResource]):
             # the index key will be `/core` since index is based on the
             # url parts split by `/`
             index_key = index_key.partition("{")[0].rpartition("/")[0]
+            # the index is walked with parts of ``path_safe``
+            index_key = _path_safe(index_key)
         return index_key.rstrip("/") or "/"
 
     def index_resource(self, resource: AbstractResource) -> None:
@@ -1237,6 +1241,13 @@ def _unquote_path_safe(value: str) -> str:
     if "%" not in value:
         return value
     return value.replace("%2F", "/").replace("%25", "%")
+
+
+def _path_safe(quoted: str) -> str:
+    """The form a quoted path (fragment) has in ``URL.path_safe``."""
+    if "%" not in quoted:
+        return quoted
+    return URL.build(path=quoted, encoded=True).path_safe
 
 
 def _requote_path(value: str) -> str:
